@@ -215,13 +215,15 @@ class NodeArray:
         if left:
             assert self.left, "NodeArray has no left dangling leg."
             edge = self.left_edge ^ m[0]
+            new_edge = m[1]
             self.nodes[0] = tn.contract(edge)
-            self.left_edge = m[1]
+            self.left_edge = new_edge
         else:
             assert self.right, "NodeArray has no right dangling leg."
             edge = self.right_edge ^ m[0]
+            new_edge = m[1]
             self.nodes[-1] = tn.contract(edge)
-            self.right_edge = m[1]
+            self.right_edge = new_edge
 
     def svd_sweep(
             self,
